@@ -288,9 +288,10 @@ def replay_behaviours(rig, base, nbeh, depth, label):
     dead = -1; nsteps = 0; nbad = 0; classes = {}
     feat = {"deliveries": 0, "deliveries_to_previous_round_reader": 0, "deliveries_in_two_regions": 0, "loss_reports(drop>0)": 0,
             "calls_after_real_round_num_wrapped": 0, "refused_commits(EINVAL)": 0}
+    start = 0
     for i, (ln, (bid, s, r0), a) in enumerate(zip(lines, meta, res)):
+        if s is None: start = i
         if bid == dead: continue
-        start = max(j for j in range(i + 1) if meta[j][1] is None)
         if isinstance(a, dict):
             c = a["crash"]; dead = bid
             ctx.fail("ring:%s:%s" % (c[0], c[1]), "%s: %s\n%s" % (label, c[3], a["raw"]), {"commands": lines[start:i + 1]})
